@@ -25,10 +25,7 @@ def initOf (j : Json) : Except String State := do
       match a.toList with
       | [d, sv, l, m] => pure (some ((← d.getNat?), (← sv.getNat?), (← l.getNat?), (← m.getNat?)))
       | _ => throw "entry: [data,sver,len,mtime] expected"
-  let xdev := match i.getObjVal? "xdev" with
-    | .ok (Json.bool b) => b
-    | _ => false
-  pure (mkInit clock ver sm entry stamp xdev)
+  pure (mkInit clock ver sm entry stamp)
 
 def opOf : String → Except String Op
   | "store" => pure .store
@@ -92,10 +89,7 @@ def observe (s0 : State) (evs : List Ev) : Json :=
     ("vtmps", toJson s.vtmps),
     ("ver", toJson s.ver),
     ("clock", toJson s.clock),
-    ("hist_ok", Json.bool (histOK s0 evs)),
-    ("no_mod_during_store", Json.bool (histNoModDuringStore s0 evs)),
-    ("fine_clock", Json.bool (histFineClock evs)),
-    ("ticks", Json.bool (histTicks evs))]
+    ("distinct_mtimes", Json.bool (histDistinctMtimes s0 evs))]
 
 /-- all maximal schedules (depth first): operations still to spawn, running processes,
     a budget of modifications and of crashes.  A load / check is spawned together with its
